@@ -19,7 +19,7 @@ LoadLog == TLCSet(7, ndJsonDeserialize(IOEnv.TRACE))
 VARIABLES l,     \* next trace line
           dead,  \* the current execution diverged or faulted
           clr    \* per sparse slot: the matrix was cleared (explicitly or by a copy into it) since it was allocated
-vars == <<l, S, dead, clr>>
+vars == <<l, S, depth, dead, clr>>
 
 OpName == [salloc |-> "allocate", sins |-> "insert", sfind |-> "find", sdel |-> "delete", sq |-> "row-col-queries",
            sclear |-> "clear", sfree |-> "free", scopy |-> "copy", scopyrows |-> "copyrows",
@@ -93,9 +93,9 @@ FaultKey(ev) ==
 ModelInv(m) == IF m.R * m.C <= 100 THEN MatInv(m)
                ELSE MatTypeOK(m) /\ MatAbstraction(m) /\ MatNoDangling(m) /\ MatConservation(m)
 
-TInit == LoadLog /\ l = 1 /\ S = S0 /\ dead = FALSE /\ clr = [i \in 1 .. NSparse |-> FALSE]
+TInit == LoadLog /\ l = 1 /\ depth = 0 /\ S = S0 /\ dead = FALSE /\ clr = [i \in 1 .. NSparse |-> FALSE]
 
-Step(ev) ==
+OpStep(ev) ==
     LET o == OpOf(ev)
     IN  IF ~Enabled(S, o)
         THEN Msg(ev, "INFRA", "operation-outside-the-specified-use", ev.op) /\ dead' = TRUE /\ UNCHANGED <<S, clr>>
@@ -109,12 +109,13 @@ Step(ev) ==
 TNext ==
     /\ l <= Len(TraceLog)
     /\ l' = l + 1
+    /\ UNCHANGED depth
     /\ LET ev == TraceLog[l]
        IN  CASE ev.e = "Reset" -> S' = S0 /\ dead' = FALSE /\ clr' = [i \in 1 .. NSparse |-> FALSE]
              [] ev.e = "MemFault" -> /\ (IF dead THEN TRUE ELSE Msg(ev, "C17", FaultKey(ev), ev.what))
                                      /\ dead' = TRUE /\ UNCHANGED <<S, clr>>
              [] ev.e = "Proto" -> Msg(ev, "INFRA", "driver-protocol-error", ev.why) /\ dead' = TRUE /\ UNCHANGED <<S, clr>>
-             [] ev.e = "Op" -> IF dead THEN UNCHANGED <<S, dead, clr>> ELSE Step(ev)
+             [] ev.e = "Op" -> IF dead THEN UNCHANGED <<S, dead, clr>> ELSE OpStep(ev)
 
 TraceSpec == TInit /\ [][TNext]_vars
 TraceConsumed == TLCGet("stats").diameter - 1 = Len(TraceLog)
